@@ -198,13 +198,9 @@ fn op_symbol(debug: &str) -> String {
 pub fn project_expr(el: &El) -> Result<Vec<String>, String> {
     match el.name.as_str() {
         "UntypedIntegerLiteral" | "BooleanLiteral" | "CharLiteral" => Ok(vec![attr(el, "src")?.to_string()]),
-        "Deref" => {
-            let steps = one_kid(el)?;
-            if attr(el, "address_depth")? != "0" || !steps.kids.is_empty() {
-                return Err("reference with steps or address outside the Header vocabulary".to_string());
-            }
-            Ok(vec![attr(el, "identifier")?.to_string()])
-        }
+        // the dump shows the text between the quotes
+        "SimpleStringLiteral" => Ok(vec![format!("\"{}\"", attr(el, "src")?)]),
+        "Deref" if attr(el, "address_depth")? == "0" && one_kid(el)?.kids.is_empty() => Ok(vec![attr(el, "identifier")?.to_string()]),
         "Binary" => {
             if el.kids.len() != 2 {
                 return Err(format!("<Binary> with {} children", el.kids.len()));
@@ -229,8 +225,28 @@ pub fn project_expr(el: &El) -> Result<Vec<String>, String> {
             v.extend(project_expr(one_kid(el)?)?);
             Ok(v)
         }
-        other => Err(format!("expression element outside the Header vocabulary: <{other}>")),
+        // Anything else (strings, character literals, arrays, casts, structure literals, calls, lengths, sizes, references
+        // with steps; used by the `xmod` family): the subtree flattened into strings.  The rule only ever compares such
+        // a value of the header with the same value of the module, both read through this function.
+        _ => {
+            let mut v = Vec::new();
+            flatten(el, &mut v);
+            Ok(v)
+        }
     }
+}
+
+fn flatten(el: &El, out: &mut Vec<String>) {
+    let mut tag = format!("<{}", el.name);
+    for (k, val) in &el.attrs {
+        tag.push_str(&format!(" {k}={val:?}"));
+    }
+    tag.push('>');
+    out.push(tag);
+    for k in &el.kids {
+        flatten(k, out);
+    }
+    out.push(format!("</{}>", el.name));
 }
 
 fn project_pairs(list: &El) -> Result<Vec<Value>, String> {
